@@ -29,6 +29,8 @@ type c11Scenario struct {
 	Pre      map[string][]byte
 	Clients  [][]c11Call
 	Schedule []int
+	Shared   bool     // the clients are goroutines sharing one *cache.Cache
+	MustHit  []string // "client:call" lookups that must find their content (direct oracle)
 }
 
 func (sc *c11Scenario) String() string {
@@ -49,15 +51,25 @@ func (sc *c11Scenario) String() string {
 	for _, x := range sc.Schedule {
 		s = append(s, fmt.Sprint(x))
 	}
-	return strings.Join(pre, ",") + "|" + strings.Join(cl, "/") + "|" + strings.Join(s, ",")
+	opt := ""
+	if sc.Shared {
+		opt = "shared"
+	}
+	return strings.Join(pre, ",") + "|" + strings.Join(cl, "/") + "|" + strings.Join(s, ",") + "|" + opt + "|" + strings.Join(sc.MustHit, ",")
 }
 
 func parseC11(s string) *c11Scenario {
 	parts := strings.Split(s, "|")
-	if len(parts) != 3 {
+	if len(parts) != 3 && len(parts) != 5 {
 		return nil
 	}
 	sc := &c11Scenario{Pre: map[string][]byte{}}
+	if len(parts) == 5 {
+		sc.Shared = parts[3] == "shared"
+		if parts[4] != "" {
+			sc.MustHit = strings.Split(parts[4], ",")
+		}
+	}
 	for _, kv := range strings.Split(parts[0], ",") {
 		if i := strings.Index(kv, "="); i > 0 {
 			sc.Pre[kv[:i]] = common.UnHex(kv[i+1:])
@@ -147,6 +159,67 @@ func systematicC11() []*c11Scenario {
 	callsA := []c11Call{{Op: "put", ID: 0, Data: d}, {Op: "put", ID: 0, Data: d2}, {Op: "put", ID: 0, Data: []byte{}}}
 	callsB := []c11Call{{Op: "getbytes", ID: 0}, {Op: "getfile", ID: 0}, {Op: "get", ID: 0}, {Op: "put", ID: 0, Data: d}, {Op: "put", ID: 0, Data: d2}, {Op: "put", ID: 1, Data: d}}
 	var out []*c11Scenario
+	// two staggered writers of identical content (same id or another id), then a reader of the
+	// first writer's id once that writer has finished, while the second is still catching up
+	for _, dd := range [][]byte{d, d2, []byte("ab")} {
+		for _, bid := range []int{0, 1} {
+			for k := 0; k <= 9; k++ {
+				for m := 1; m <= 5; m++ {
+					for _, rdc := range []string{"getfile", "getbytes"} {
+						sc := &c11Scenario{Pre: map[string][]byte{},
+							Clients: [][]c11Call{{{Op: "put", ID: 0, Data: dd}}, {{Op: "put", ID: bid, Data: dd}}, {{Op: rdc, ID: 0}, {Op: rdc, ID: 0}}},
+							MustHit: []string{"2:0", "2:1"}}
+						// A up to operation k, B for m operations, A to the end, the reader, then B catches up
+						for i := 0; i < k; i++ {
+							sc.Schedule = append(sc.Schedule, 0)
+						}
+						for i := 0; i < m; i++ {
+							sc.Schedule = append(sc.Schedule, 1)
+						}
+						for i := 0; i < 40; i++ {
+							sc.Schedule = append(sc.Schedule, 0)
+						}
+						for i := 0; i < 40; i++ {
+							sc.Schedule = append(sc.Schedule, 2)
+						}
+						for i := 0; i < 40; i++ {
+							sc.Schedule = append(sc.Schedule, 1)
+						}
+						out = append(out, sc)
+					}
+				}
+			}
+		}
+	}
+	// goroutines sharing ONE handle, each looking up its own id (stored before, never rewritten),
+	// one running to completion at every operation boundary of the other
+	for _, pair := range [][2]string{{"getbytes", "getbytes"}, {"getfile", "getbytes"}, {"get", "getfile"}, {"getbytes", "get"}} {
+		for k := 0; k <= 10; k++ {
+			for _, first := range []int{0, 1} {
+				sc := &c11Scenario{Shared: true, Pre: map[string][]byte{
+					"a:" + idHex(0): entryBytes(0, d, 1700000000000000444), "d:" + outHex(d): d,
+					"a:" + idHex(1): entryBytes(1, d2, 1700000000000000555), "d:" + outHex(d2): d2},
+					Clients: [][]c11Call{{{Op: pair[0], ID: 0}, {Op: pair[0], ID: 0}}, {{Op: pair[1], ID: 1}, {Op: pair[1], ID: 1}}},
+					MustHit: []string{"0:0", "0:1", "1:0", "1:1"}}
+				for i := 0; i < k; i++ {
+					sc.Schedule = append(sc.Schedule, first)
+				}
+				for i := 0; i < 12; i++ {
+					sc.Schedule = append(sc.Schedule, 1-first)
+				}
+				for i := 0; i < 3; i++ {
+					sc.Schedule = append(sc.Schedule, first, 1-first)
+				}
+				for i := 0; i < 60; i++ {
+					sc.Schedule = append(sc.Schedule, first)
+				}
+				for i := 0; i < 60; i++ {
+					sc.Schedule = append(sc.Schedule, 1-first)
+				}
+				out = append(out, sc)
+			}
+		}
+	}
 	// an entry whose output file is gone (as after Trim), a writer whose source changes on the
 	// second pass (or an honest one), and a reader of that entry at every boundary of the writer
 	for _, dd := range [][]byte{[]byte("a"), []byte("ab"), d, d2} {
@@ -223,7 +296,7 @@ func (rn *c11Runner) runScenario(sc *c11Scenario) (corr, impl, oname string, tag
 		}
 		clients = append(clients, ops)
 	}
-	resp, err := rn.w.call(map[string]any{"cmd": "conc", "clients": clients, "schedule": sc.Schedule})
+	resp, err := rn.w.call(map[string]any{"cmd": "conc", "clients": clients, "schedule": sc.Schedule, "shared": sc.Shared})
 	if err != nil {
 		return "worker: " + err.Error(), "", "", nil
 	}
@@ -333,6 +406,15 @@ func (rn *c11Runner) runScenario(sc *c11Scenario) (corr, impl, oname string, tag
 						impl, oname = fmt.Sprintf("client %d: GetBytes(id%d) returned %s with OutputID %s, which no Put stored for that id", ci, o.ID, trunc(f[1]), f[2]), "foreign-data"
 					}
 				}
+			}
+		}
+	}
+	for _, mh := range sc.MustHit {
+		var ci, oi int
+		if _, err := fmt.Sscanf(mh, "%d:%d", &ci, &oi); err == nil && ci < len(resp.Results) && oi < len(resp.Results[ci]) && ci < len(sc.Clients) && oi < len(sc.Clients[ci]) {
+			o := sc.Clients[ci][oi]
+			if !strings.HasPrefix(resp.Results[ci][oi], "F ") && impl == "" {
+				impl, oname = fmt.Sprintf("client %d: %s(id%d) missed (%s) although that id was stored with this content before the lookup started and is never stored with another content", ci, o.Op, o.ID, resp.Results[ci][oi]), "spurious-miss"
 			}
 		}
 	}
@@ -572,27 +654,49 @@ func (rn *c11Runner) stress(real string, procs, routines, millis int) {
 			break
 		}
 	}
+	// half of the processes are built with the race detector and let their goroutines share ONE
+	// *cache.Cache value (a program with several goroutines on one handle)
+	raceBin := filepath.Join(rn.f.Work, "cworker_race")
+	if err := goBuildRace(raceBin, "./cmd/cache/worker"); err != nil {
+		res.Notes = append(res.Notes, "stress: no race-detector build ("+err.Error()+"); shared-handle processes run without it")
+		raceBin = real
+	}
 	type done struct {
-		r   *wResp
-		err error
+		r      *wResp
+		err    error
+		stderr string
 	}
 	ch := make(chan done, procs)
 	for p := 0; p < procs; p++ {
 		go func(p int) {
-			w, err := startWorker(real)
+			bin, shared := real, false
+			if p%2 == 1 {
+				bin, shared = raceBin, true
+			}
+			w, err := startWorkerCapture(bin, "GORACE=halt_on_error=0")
 			if err != nil {
-				ch <- done{nil, err}
+				ch <- done{nil, err, ""}
 				return
 			}
-			defer w.close()
-			r, err := w.call(map[string]any{"cmd": "stress", "dir": dir, "seed": int64(rn.f.Seed), "millis": millis, "routines": routines, "proc": p})
-			ch <- done{r, err}
+			r, err := w.call(map[string]any{"cmd": "stress", "dir": dir, "seed": int64(rn.f.Seed), "millis": millis, "routines": routines, "proc": p, "shared": shared})
+			w.close()
+			ch <- done{r, err, w.stderr.String()}
 		}(p)
 	}
 	total := map[string]int{}
 	for p := 0; p < procs; p++ {
 		select {
 		case d := <-ch:
+			if i := strings.Index(d.stderr, "WARNING: DATA RACE"); i >= 0 {
+				rep := d.stderr[i:]
+				if strings.Contains(rep, "go-internal/cache.") {
+					res.Violate(common.Violation{Kind: "impl-violation", Oracle: "data-race",
+						Input:  map[string]string{"stress": fmt.Sprintf("goroutines sharing one *cache.Cache, race detector, seed %d", rn.f.Seed)},
+						Detail: "the race detector reports a data race inside the cache package when goroutines share one Cache value: " + trunc(rep), Key: "c11:stress:data-race"})
+				} else {
+					res.Notes = append(res.Notes, "stress: race report outside the cache package: "+trunc(rep))
+				}
+			}
 			if d.err != nil || d.r == nil {
 				res.Notes = append(res.Notes, "stress: a worker process failed to report")
 				continue
